@@ -56,7 +56,10 @@ def run(ctx):
         cfgs.append(tu.gen_config(ctx.rng, joint=True))
         # data with a flat-lined stretch: a cluster of identical windows has an exactly singular (zero) covariance, the
         # kind of input on which "robustness" clamps and in-place repairs act
-        cfgs.append(tu.flat_config(ctx.rng))
+        for w_ in (1, 2):
+            fc = tu.flat_config(ctx.rng)
+            fc.update({"K": 3, "W": w_, "lens": [w_ - 1 + ctx.rng.randint(120, 170)]})
+            cfgs.append(fc)
         # a run that really repopulates a cluster (random donor draws): searched for, not hoped for
         rc = tu.find_repopulating_config(ctx.rng)
         if rc is not None:
